@@ -30,7 +30,7 @@ MAIN = 'xdoctest.__main__.main'
 
 
 def run(ctx):
-    for fn in (r1_flags, r2_failed_list, r3_keys, r4_exit_status, r5_gathering, r6_disable_marker_anchored):
+    for fn in (r1_flags, r2_failed_list, r3_keys, r4_exit_status, r5_gathering, r6_disable_marker_anchored, r7_no_mutation_of_iterated_lists):
         ctx.rep.rule(fn, ctx)
 
 
@@ -450,6 +450,23 @@ def disable_marker_anchored(ctx, rule):
             pats += [e.value for e in v.elts if isinstance(e, ast.Constant) and isinstance(e.value, str)]
     ok = bool(pats) and all(p.lstrip('\\A^').startswith('>>>') for p in pats)
     rep.ob(rule, ctx.loc(f, f.node), 'every marker pattern starts with the prompt', ok, '%d pattern(s)' % len(pats), nontrivial=False, anchor=f.qualname)
+
+
+def r7_no_mutation_of_iterated_lists(ctx):
+    """gathering and running visit every example once: no loop in runner.py changes the length of the list it is iterating"""
+    from .common import mutations_while_iterating
+    rep = ctx.rep
+    mod = ctx.prog.module('xdoctest.runner')
+    n = 0
+    for func in [f_ for f_ in ctx.prog.funcs.values() if f_.module is mod]:
+        loops = [x for x in ast.walk(func.node) if isinstance(x, ast.For) and isinstance(x.iter, ast.Name)]
+        n += len(loops)
+        for (loop, x) in mutations_while_iterating(func.node):
+            rep.ob('C10.R7', ctx.loc(func, x), '%s inside `for ... in %s`' % (ctx.src(x), loop.iter.id), False,
+                   'the list being iterated is modified in the loop body: the element that follows a removed one is never examined '
+                   '(e.g. the second of two adjacent force-disabled doctests is run)', anchor=func.qualname)
+    rep.ob('C10.R7', 'src/%s:1' % mod.relpath, 'loops over named lists in runner.py', True, '%d loops, none modifies the list it iterates (unless reported above)' % n, nontrivial=False, anchor='xdoctest.runner')
+    rep.floor('C10.R7', 'loops over named lists in runner.py', n, 5)
 
 
 def r6_disable_marker_anchored(ctx):
